@@ -72,6 +72,7 @@ def analyse(case, res):
     pending = {}          # slot (src_full, attr) -> value accepted since A's previous step
     inflight = {}         # agent -> time of its unfinished step
     last_a = None
+    collected = None
     delivered = 0
     pend_attr = {}
     for e in res.trace:
@@ -88,8 +89,17 @@ def analyse(case, res):
                 for dest_full, attrs in dests.items():
                     for attr, val in attrs.items():
                         pending[(src_full, dest_full.split(".", 1)[1], attr)] = val
+        elif k == "dispatch" and e[1] == "A":
+            # a remote controller: mosaik collected the inputs of this step now; what an agent sets from here on
+            # belongs to the following step
+            collected = dict(pending)
+            pending = {}
         elif k == "step_begin" and e[1] == "A":
             t, inputs = e[2], e[3]
+            if collected is not None:
+                pending, later = collected, pending
+            else:
+                later = {}
             for ag, ta in inflight.items():
                 if ta < t:
                     fails.append(Failure("C16.order", "C16.order",
@@ -109,7 +119,8 @@ def analyse(case, res):
                 fails.append(Failure(rule, f"C16.delivery|{detail}",
                                      f"A@{t}: set_data values in inputs {got}, expected {want}"))
             delivered += len(want)
-            pending = {}
+            pending = later
+            collected = None
     nontrivial = (len(agents) >= 2 or any(
         min(s["beh"]["steps"]) < min(scn["sims"][0]["beh"]["steps"]) for s in scn["sims"][1:])) \
         and delivered > 0 and res.stats.get("nonfifo", 0) > 0
